@@ -75,6 +75,38 @@ T = {
              "32/64/128-bit operand and a count that is a multiple of the width (incl. 0): shift by the full width (UB; no wrong value on x86-64 at run time)", ["C18"]),
  "M-C19-2": ("C19", "integer sqrt: start bit mask ~1 replaced by 0x7e (cmath/sqrt.h)",
              "integer type with more than 128 digits (wide_integer<N>, N > 128, or a scaled/elastic type over it), operand >= 2^72", ["C19"]),
+ "M-C06-3": ("C06", "GCC intrinsic path: overflow_polarity<add_op> says negative only when BOTH operands are negative (overflow/builtin_overflow.h)",
+             "g++ only; + with one signed and one unsigned built-in operand, unsigned result, exactly one operand negative and the exact sum below 0: saturates to the maximum / reports positive overflow", ["C06", "C07", "C12"]),
+ "M-C07-3": ("C07", "GCC intrinsic path: multiply 'fast path' result = lhs * rhs when sizeof(Lhs)+sizeof(Rhs) <= sizeof(Result) (overflow/builtin_overflow.h)",
+             "g++ only; uint16_t * uint16_t (promoted to int, 31 value bits) with a product >= 2^31: signed overflow inside the detection routine, no overflow reported", ["C07", "C06", "C12"]),
+ "M-C08-3": ("C08", "nearest division rewritten as lhs / rhs + (lhs % rhs) * 2 / rhs (rounding/nearest_rounding_tag.h)",
+             "reps at least as wide as int, |lhs % rhs| > max/2 (both operands in the top half of the range, quotient about 0.5..2): the doubled remainder overflows", ["C08", "C11"]),
+ "M-C09-3": ("C09", "the tie_to_pos_inf step2 slip of M-C08-2 in a slightly different spelling, proposed for the conversion property (rounding/tie_to_pos_inf_rounding_tag.h)",
+             "scaled_integer over a rounding_integer<_, tie_to_pos_inf> rep with an ODD radix (3, 5): conversions to a coarser exponent divide by radix^n with the tag's divide operator", ["C09", "C08"]),
+ "M-C11-3": ("C11", "nearest floating->integer conversion adds 0.5 in double instead of long double (rounding/convert_operator.h) — the change of M-C09-1 restricted to double, proposed for static_integer/static_number",
+             "double source: the largest double below one half, or an odd integer in [2^52, 2^53) (needs >= 53 digits)", ["C11", "C09"]),
+ "M-C13-3": ("C13", "integer to_chars_capacity: digits * 3 / 10 + 1 instead of digits * log10(2) + 1 (charconv/to_chars_capacity.h)",
+             "signed wide_integer with 103, 113, ... 193, 196, 203, ... digits, negative value of maximum length: to_chars_static's buffer is one character short", ["C13", "C14"]),
+ "M-C14-3": ("C14", "scaled to_chars_capacity: num_digits_to_binary(radix 10) rounds down (scaled_integer/to_chars_capacity.h)",
+             "radix 10, positive exponent, int8/uint64/int128 reps at particular exponents, value filling the capacity: to_chars_static/to_string/operator<< print a truncated scientific form", ["C14", "C13"]),
+ "M-C01-3": ("C01", "set_digits: the signed 15/16 digit boundary copied from the unsigned one, so 16 signed digits get int16_t (num_traits/set_digits.h)",
+             "scaled_integer over elastic_integer with Narrowest int8_t/int16_t and a result of exactly 16 digits (8x8 product, 15+15 sum), |result rep| >= 2^15", ["C01", "C05"]),
+ "M-C02-3": ("C02", "vendored multi-limb back end: the remainder of uintwide_t::operator%= takes the sign of the divisor (ckormanyos/uintwide_t.h)",
+             "scaled_integer over a signed wide_integer<N> with N > 127 (multi-limb), operands of opposite sign, non-zero remainder", ["C02"]),
+ "M-C03-3": ("C03", "mixed-type wide_integer comparison aligns both reps in a common-width rep with the LEFT operand's signedness (wide_integer/custom_operator.h)",
+             "two different wide_integer instantiations, unsigned left and wider signed right (uint32 vs int64 reps), negative right value", ["C03", "C12"]),
+ "M-C05-3": ("C05", "from_value<elastic_integer<D, Narrowest>, Value> keeps the target's Narrowest instead of the value's signedness (elastic_integer/from_value.h)",
+             "elastic operand with an unsigned Narrowest combined with a built-in signed integer that is negative at run time", ["C05", "C03", "C01"]),
+ "M-C12-3": ("C12", "the change of M-C03-2 (static_cast<Rhs> for a built-in left operand of a comparison) proposed independently for the native-tag property (wrapper/comparison_operator.h)",
+             "plain integer on the left whose value does not fit the wrapper's rep (a wider built-in type than the rep)", ["C12", "C03"]),
+ "M-C15-3": ("C15", "make_char_to_digit_negative(16): upper-case digits use ('a' - 10) - c (parse.h)",
+             "run-time parse<T>(char const*) / CNL_INTMAX_C of a NEGATIVE hexadecimal token with an upper-case digit", ["C15"]),
+ "M-C16-3": ("C16", "fraction -> floating conversion divides in double and casts (fraction/definition.h)",
+             "float target with a component needing more than 24 bits, or long double target with a quotient not exact in double", ["C16"]),
+ "M-C18-3": ("C18", "cnl::used_digits delegates to _impl::used_digits, which picks the algorithm by std::is_signed of the unwrapped rep (numeric.h)",
+             "negative value of a signed number whose innermost rep is a class type (wide_integer<N>, N > 127): 0 used digits, leading_bits = full width", ["C18", "C06"]),
+ "M-C19-3": ("C19", "sqrt(elastic_integer) result digits = width / 2 instead of (Digits + 1) / 2 (elastic_integer/sqrt.h)",
+             "unsigned Narrowest with an odd digit count: the root needs one more digit than the result type declares", ["C19", "C05"]),
 }
 
 
@@ -95,6 +127,17 @@ HIST = {
  "M-C14-2": "missed at first: rule R6 (no rounding division reachable from the digit generator) added",
  "M-C15-2": "reported at first as analysis-broken (exit 2: a literal stopped compiling): an uncompilable sampled literal is now a violation; fact attribution bisects unattributable diagnostics",
  "M-C19-2": "missed at first: start-bit rule for built-in and multi-word reps added",
+ "M-C08-3": "reported at first as analysis-broken (exit 2): the interval domain could not invert `a rem K`; rem preimages (few periods) added, the overflow of the doubled remainder is now a refuted UB line (exit 1)",
+ "M-C09-3": "reported by C08, the owner of the division operator the conversion goes through; C09's own lines are radix 2 and stay silent",
+ "M-C11-3": "reported by C09 (floating-point precision rule), to which C11 leaves the rounding layer's conversions",
+ "M-C13-3": "missed at first: capacity facts covered 8..128-bit integers only; digit counts of wide and elastic integers are now swept (the approximation first fails at 103 digits)",
+ "M-C14-3": "reported by C13's capacity facts (the capacity of the static buffer is C13's subject); C14's own rules stay silent",
+ "M-C07-3": "missed at first: no pair of sub-int unsigned operands (the one class where promotion to int does not make the product fit) was in the quick matrix; (u16,u16), (i16,u16), (i16,i16) added",
+ "M-C01-3": "reported by C05 (rep selection of elastic results), not by C01, whose elastic kernels use the default Narrowest",
+ "M-C02-3": "NOT reported by any check: the change is inside the multi-limb back end (uintwide_t) of wide_integer<N>, N > 127; kernel equivalence covers reps up to 128 bits and multi-limb value semantics is the part declared out of reach (C10 not applicable, C01/C02 'not decided: multi-limb reps')",
+ "M-C03-3": "missed at first: the single-word wide_integer comparison kernels had no (unsigned, wider signed) pair; seven mixed pairs added",
+ "M-C12-3": "missed at first by C12 (reported by C03): comparisons with a built-in operand of a wider type than the wrapper's rep added to C12",
+ "M-C18-3": "missed at first: signedness-dispatch rule added (used_digits / leading_bits of a signed number must enter the signed algorithm, also for class-type reps)",
 }
 
 
